@@ -30,7 +30,7 @@ from pyvc.api import PROTOCOLS
 from pyvc.seqs import DRef, LRef, SObj
 from pyvc.values import cur, mk_bool
 
-from contracts.C14_signals import (NAMES, SG, SIGNALS_C, Sender, _WR_OF, _WR_REF, _connect_real, _connect_setup, fresh_sender,
+from contracts.C14_signals import (NAMES, in_place_clauses, SG, SIGNALS_C, Sender, _WR_OF, _WR_REF, _connect_real, _connect_setup, fresh_sender,
                                    handler_eq, handlers_of, item, length, removal_claims, same_seq)
 from urwid import signals as _sig
 
@@ -113,6 +113,7 @@ class disconnect:
         H1 = handlers_of(a.obj, a.name)
         n, m = length(H0), length(H1)
         yield "returns-None", result is None
+        yield from in_place_clauses(a.obj)  # the registry's dict and list objects stay (C14_signals.in_place_clauses)
         calls = [ev for ev in s.trace if ev[0] == "disconnect_by_key"]
         yield "at-most-one-removal", len(calls) <= 1
         for other in NAMES:
